@@ -92,6 +92,13 @@ CLAIMS = {
                 'a turn of a runnable spinner whenever body end and next tick share an instant.',
         'note': _NOTE,
     },
+    'C16': {
+        'text': 'Durations (ties, zero), count, consumer behaviour (prompt / slow / break), one '
+                'failing activity and a fault on the caller at (c,p) are symbolic / finite '
+                'choices; every path proves result order against the completion log, yield '
+                'instants, the stop after count results and that no loser code runs afterwards.',
+        'note': _NOTE,
+    },
 }
 
 NOT_APPLICABLE = {}
